@@ -135,6 +135,13 @@ Theorem C03_load_is_source : forall (s : dstate) ow dump (m : dmgr) tr,
   let '(m', s', out) := step m s (MLoad (map load_task dump) ow) in ((m', s', tr), res_of (o_err out)).
 Proof. exact src_load_eq. Qed.
 
+(* the translated Manager.clone and Manager.verify are the model's (verify on managers whose indices have duplicate-free keys) *)
+Theorem C03_clone_is_source : forall (m : dmgr), src_clone path_eqb m = Ok (clone path_eqb m).
+Proof. exact (src_clone_eq path_eqb path_eqb_spec). Qed.
+
+Theorem C03_verify_is_source : forall (m : dmgr), Inv path_eqb m -> src_verify path_eqb m = verify path_eqb m.
+Proof. intros m (W & _). apply (src_verify_eq path_eqb path_eqb_spec). now apply (mwf_keys_ok path_eqb). Qed.
+
 Print Assumptions C03_inv_register.
 Print Assumptions C03_inv_unregister.
 Print Assumptions C03_history_independent.
@@ -152,3 +159,5 @@ Print Assumptions C03_refcount_is_source.
 Print Assumptions C03_refresh_is_source.
 Print Assumptions C03_cleanup_is_source.
 Print Assumptions C03_load_is_source.
+Print Assumptions C03_clone_is_source.
+Print Assumptions C03_verify_is_source.
